@@ -1134,6 +1134,7 @@ func c01Ops() []c01Op {
 		{"maj:1:ends", "", true, 1, true, false, false}, {"maj:1:all:ignoregaps", "", true, 1, false, false, true},
 		{"char:C:0.5:all", "C", false, 0.5, false, false, false}, {"char:C:0.5:ends", "C", false, 0.5, true, false, false},
 		{"char:A:1:ends", "A", false, 1, true, false, false}, {"char:AC:0:ends", "AC", false, 0, true, false, false},
+		{"char:C:0.6:all:ignoregaps", "C", false, 0.6, false, false, true}, {"char:A:0.5:ends:ignoregaps", "A", false, 0.5, true, false, true},
 		{"seqs:A:0.5", "A", false, 0.5, false, true, false}, {"seqs:-:0.5", "-", false, 0.5, false, true, false},
 	} {
 		cl := cl
@@ -1185,7 +1186,7 @@ func c01Ops() []c01Op {
 					if cl.maj {
 						_, _, _, rm = w.al().RemoveMajorityCharacterSites(cl.cut, cl.ends, cl.igaps, false)
 					} else {
-						_, _, _, rm = w.al().RemoveCharacterSites([]uint8(cl.set), cl.cut, cl.ends, false, false, false, false)
+						_, _, _, rm = w.al().RemoveCharacterSites([]uint8(cl.set), cl.cut, cl.ends, false, cl.igaps, false, false)
 					}
 				}) {
 					return
